@@ -334,11 +334,7 @@ Theorem C01_source_dataframe_row : forall (exp2 : Q -> Q) purity v r x,
   (forall p, use_purity purity = Some p ->
      Gen.FnCallClonalRow.fn_dataframe_row exp2 purity v r x == abs_clonal (exp2 v) r x p) /\
   (use_purity purity = None -> Gen.FnCallClonalRow.fn_dataframe_row exp2 purity v r x == abs_pure (exp2 v) r).
-Proof.
-  intros exp2 purity v r x. split.
-  - intros p U. exact (Proofs.FnCallClonalRow.dataframe_row_eq exp2 purity p v r x U).
-  - exact (Proofs.FnCallClonalRow.dataframe_row_pure exp2 purity v r x).
-Qed.
+Proof. exact Proofs.FnCallClonalRow.dataframe_row_both. Qed.
 
 (* ---- [loop ties e1] source tie of do_call's `if method != "none": outarr["cn"] = absolutes.round().astype("int") ...`
    (Gen/FnCallFinish.v fn_finish, the WHOLE statement): for method "clonal" do_call_row is the generated statement applied
@@ -356,3 +352,73 @@ Theorem C01_source_finish_clonal : forall k purity hapx female build ts variants
     | None => None
     end.
 Proof. exact Proofs.FnCallFinish.source_finish_row_clonal. Qed.
+
+(* ---- [loop ties e1] source tie of the row masks of cnvlib/cnary.py read by the purity-adjusted path
+   (Gen/FnCallRowClass.v: chr_x_label, chr_y_label, parx_filter, chr_x_filter, pary_filter, chr_y_filter, WHOLE, per row,
+   regenerated from the Python source on every run).  The generated labels of a non-empty table without cached labels are
+   x_label / y_label of the first row's chromosome ... *)
+From CNV Require Gen.FnCallRowClass Proofs.FnCallRowClass.
+Theorem C01_source_labels : forall n first, (n <> 0)%Z ->
+  Gen.FnCallRowClass.fn_rc_chr_x_label false EmptyString n first = x_label first /\
+  Gen.FnCallRowClass.fn_rc_chr_y_label false EmptyString n (Gen.FnCallRowClass.fn_rc_chr_x_label false EmptyString n first)
+  = y_label first.
+Proof. exact Proofs.FnCallRowClass.source_labels. Qed.
+
+(* ... and the generated masks of a row (the PAR bounds they look up being those of the lower-cased build in
+   Gen.Params.PAR_TABLE) ARE its row_class: chr_x_filter selects exactly class ChrX, chr_y_filter ChrY, pary_filter ParY,
+   parx_filter ParX, and a row none of them selects is Auto *)
+Theorem C01_source_row_class : forall build first chrom lo hi,
+  build_ok build ->
+  let xl := x_label first in
+  let yl := y_label first in
+  let c := row_class build first chrom lo hi in
+  Proofs.FnCallRefExpect.is_x c = Proofs.FnCallRowClass.gen_x_mask build xl chrom lo hi /\
+  Proofs.FnCallRefExpect.is_y c = Proofs.FnCallRowClass.gen_y_mask build yl chrom lo hi /\
+  Proofs.FnCallRefExpect.is_pary c = Proofs.FnCallRowClass.gen_pary_mask build yl chrom lo hi /\
+  Proofs.FnCallRowClass.is_parx c = Proofs.FnCallRowClass.gen_parx_mask build xl chrom lo hi.
+Proof. exact Proofs.FnCallRowClass.source_row_class. Qed.
+
+Theorem C01_source_row_class_auto : forall build first chrom lo hi,
+  build_ok build ->
+  let xl := x_label first in
+  let yl := y_label first in
+  (row_class build first chrom lo hi = Auto <->
+   Proofs.FnCallRowClass.gen_x_mask build xl chrom lo hi = false /\
+   Proofs.FnCallRowClass.gen_y_mask build yl chrom lo hi = false /\
+   Proofs.FnCallRowClass.gen_pary_mask build yl chrom lo hi = false /\
+   Proofs.FnCallRowClass.gen_parx_mask build xl chrom lo hi = false).
+Proof. exact Proofs.FnCallRowClass.source_row_class_auto. Qed.
+
+(* the masks are the generated functions themselves, the looked-up bounds filled in (nothing hidden in the gen_* names) *)
+Example C01_ex_source_masks :
+  Proofs.FnCallRowClass.gen_x_mask (Some "GRCh38"%string) "chrX" "chrX" 20000 30000 = false /\
+  Proofs.FnCallRowClass.gen_parx_mask (Some "GRCh38"%string) "chrX" "chrX" 20000 30000 = true /\
+  Proofs.FnCallRowClass.gen_x_mask (Some "GRCh38"%string) "chrX" "chrX" 3000000 3000100 = true /\
+  Proofs.FnCallRowClass.gen_x_mask None "chrX" "chrX" 20000 30000 = true /\
+  Proofs.FnCallRowClass.gen_pary_mask (Some "grch37"%string) "Y" "Y" 10000 20000 = true /\
+  Proofs.FnCallRowClass.gen_y_mask (Some "grch37"%string) "Y" "Y" 10000 20000 = false.
+Proof. vm_compute. repeat split; reflexivity. Qed.
+
+(* composed: get_as_dframe_and_set_reference_and_expect_copies' generated column code (C01_source_ref_expect) fed with the
+   generated masks of the row gives the (reference, expect) copies of the row's class ... *)
+Theorem C01_source_row_copies : forall k hapx female build first chrom lo hi,
+  build_ok build ->
+  Gen.FnCallRefExpect.fn_ref_expect k k hapx female
+    (Proofs.FnCallRowClass.gen_x_mask build (x_label first) chrom lo hi)
+    (Proofs.FnCallRowClass.gen_y_mask build (y_label first) chrom lo hi)
+    (match build with Some _ => true | None => false end)
+    (Proofs.FnCallRowClass.gen_pary_mask build (y_label first) chrom lo hi)
+  = ref_expect k hapx female (row_class build first chrom lo hi).
+Proof. exact Proofs.FnCallRowClass.source_row_copies. Qed.
+
+(* ... and log2_ratios' generated body (C01_source_log2_ratios) fed with them is `rescaled` with the shift of that class *)
+Theorem C01_source_row_log2 : forall (exp2 log2 : Q -> Q),
+  (forall y, 0 < y -> exp2 (log2 y) == y) ->
+  (forall v, exp2 (v + 1) == 2 * exp2 v) ->
+  forall a k hapx build first chrom lo hi,
+    build_ok build ->
+    exp2 (fn_log2_ratios log2 a k hapx min_abs_val false
+            (Proofs.FnCallRowClass.gen_x_mask build (x_label first) chrom lo hi)
+            (Proofs.FnCallRowClass.gen_y_mask build (y_label first) chrom lo hi))
+    == rescaled a k (shifted hapx (row_class build first chrom lo hi)).
+Proof. exact Proofs.FnCallRowClass.source_row_log2. Qed.
